@@ -77,6 +77,18 @@ func configs(r *ev.Run) []cfg {
 				NSets: nsetsFor(r, n), MsgIdx: []int{0, 1}, ObsKeys: obs, Depth: d, InMsgs: []int{0, 2}, InVars: rng(0, len(proch.InVariants)), MaxState: 400000})
 		}
 	}
+	// rotations between sets of DIFFERENT sizes: the quorum that counts is that of the set the VAA names (the
+	// one in force at the local observation), not of whatever set is current when the last signature arrives
+	for _, p := range [][2]int{{4, 1}, {4, 2}, {2, 4}, {1, 3}, {3, 2}, {7, 4}, {4, 7}} {
+		a, b := p[0], p[1]
+		sets := [][]int{rng(0, a), rng(0, b), rng(100, 100+a)}
+		obs := append(rng(0, 5), outsider)
+		if a+b > 10 {
+			obs = []int{1, 2, 3, 6, outsider}
+		}
+		out = append(out, cfg{C: proch.Config{Name: fmt.Sprintf("resize-%d-to-%d", a, b), Sets: sets, OwnKey: 0, Msgs: msgs()},
+			NSets: 2, MsgIdx: []int{0}, ObsKeys: obs, Depth: 6, InMsgs: []int{0}, InVars: []int{0, 1}, MaxState: 400000})
+	}
 	// non-initial states that need wall-clock time to be reached: the message was observed, did not reach
 	// quorum, and the cleanup service has marked it settled (30 s) / retried it (5 min) before the search starts
 	for _, n := range []int{2, 3, 4} {
